@@ -199,22 +199,28 @@ def main():
         log("could not copy the driver:", e)
 
     if c.replay:
+        # `--replay pinned:<id>` re-runs one pinned term; `--replay <file>` re-runs the stream of a
+        # recorded violation and shows the rows of the case it names.  Exit 1 iff the failure reproduces.
+        want = ""
         if c.replay.startswith("pinned:"):
             rows = harness(hb, "c10-rows", pinned=1, id=c.replay[7:], seed=c.seed, tier="replay")
         else:
             rp = json.load(open(c.replay))
             print(json.dumps({k: rp[k] for k in rp if k in ("kind", "request", "impl", "model", "oracle", "class", "args", "broken")}, indent=1)[:3000])
-            args = dict(rp.get("args", {}))
+            args = dict(rp.get("args") or {})
             args["tier"] = "replay"
             rows = harness(hb, "c10-rows", **args)
             want = rp.get("request", "")
-            rows = [r for r in rows if r[0] == "-" and r[1].startswith("case") and (len(want.split(" ")) > 1 and want.split(" ")[1].split(".")[0] + " " in r[1] + " ")
-                    or r[0] == want or r[0].startswith("defschemas") is False and want and r[0].split(" ")[:2] == want.split(" ")[:2]]
+        case = want.split(" ")[1].split(".")[0] if len(want.split(" ")) > 1 else ""
         bad = 0
         for r in rows:
             if r[0].startswith("defschemas"):
                 continue
-            print("\t".join(x[:600] for x in r))
+            if want:
+                mine = (r[0] == "-" and (" %s " % case) in (r[1] + " ")) or (r[0] != "-" and r[0].split(" ")[1:2] == want.split(" ")[1:2])
+                if not mine:
+                    continue
+            print("\t".join(x[:700] for x in r))
             bad += len(r) > 2 and r[2].startswith("FAIL")
         sys.exit(1 if bad else 0)
 
